@@ -77,6 +77,10 @@ func Load(dir string, tags string, patterns ...string) (*Loaded, error) {
 	if len(errs) > 0 {
 		return nil, fmt.Errorf("package errors: %s", strings.Join(errs, "; "))
 	}
+	return buildLoaded(pkgs, dir), nil
+}
+
+func buildLoaded(pkgs []*packages.Package, dir string) *Loaded {
 	prog, spkgs := ssautil.AllPackages(pkgs, ssa.GlobalDebug)
 	prog.Build()
 	l := &Loaded{fset: prog.Fset, pkgs: pkgs, prog: prog, spkgs: spkgs, funcs: map[string]*ssa.Function{}, modPaths: map[string]bool{}, dir: dir}
@@ -108,7 +112,6 @@ func Load(dir string, tags string, patterns ...string) (*Loaded, error) {
 						}
 					}
 				}
-				// generic types: methods are reachable through the named type's methods
 				if n, ok := t.(*types.Named); ok {
 					for i := 0; i < n.NumMethods(); i++ {
 						if f := prog.FuncValue(n.Method(i)); f != nil {
@@ -119,7 +122,7 @@ func Load(dir string, tags string, patterns ...string) (*Loaded, error) {
 			}
 		}
 	}
-	return l, nil
+	return l
 }
 
 func (l *Loaded) addFn(f *ssa.Function) {
